@@ -201,6 +201,38 @@ theorem C03_eq_refl (t : Tm) (wf : WF t) : t.beq t = true := by
   obtain ⟨wh, ws, _⟩ := wf
   simp [Tm.beq, pyEq, C01.C01_pack_exact t.sph wh, sec_pack t.sec ws]
 
+/-- **`==` is exactly equality of the compared fields**: for in-range telemetry `a == b` holds iff
+    space packet header, secondary header (timestamp included) and source data are all equal, i.e.
+    iff the two objects are equal field by field (so `==` distinguishes any two different packets) -/
+theorem C03_eq_iff (a b : Tm) (ha : C01.WF a.sph) (hb : C01.WF b.sph) (sa : WFSec a.sec) (sb : WFSec b.sec) :
+    a.beq b = true ↔ a = b := by
+  constructor
+  · intro h
+    simp only [Tm.beq, pyEq, C01.C01_pack_exact a.sph ha, C01.C01_pack_exact b.sph hb, sec_pack a.sec sa,
+      sec_pack b.sec sb, Bool.and_eq_true, decide_eq_true_eq] at h
+    obtain ⟨⟨h1, h2⟩, h3⟩ := h
+    have e1 : a.sph = b.sph := by
+      have u1 := C01.C01_unpack_pack a.sph ha []
+      have u2 := C01.C01_unpack_pack b.sph hb []
+      rw [h1, u2] at u1
+      exact (Except.ok.inj u1).symm
+    have hl : a.sec.timestamp.length = b.sec.timestamp.length := by
+      have := congrArg List.length h2
+      simp only [Spec.sec, Spec.secFixed, List.length_append, List.length_cons, List.length_nil] at this
+      omega
+    have e2 : a.sec = b.sec := by
+      have u1 := sec_unpack_spec a.sec sa []
+      have u2 := sec_unpack_spec b.sec sb []
+      rw [h2, hl, u2] at u1
+      exact (Except.ok.inj u1).symm
+    obtain ⟨x1, x2, x3⟩ := a
+    obtain ⟨y1, y2, y3⟩ := b
+    simp only at e1 e2 h3
+    subst e1 e2 h3
+    rfl
+  · rintro rfl
+    simp [Tm.beq, pyEq, C01.C01_pack_exact a.sph ha, sec_pack a.sec sa]
+
 /-- the service-17 wrapper builds service-17 telemetry and decodes/packs exactly like the generic class -/
 theorem C03_srv17 (sub apid ssc ref dst ver : Nat) (ts src : Bytes)
     (ha : apid < 2048) (hc : ssc < 16384) (hb : sub < 256) (hl : ts.length + src.length ≤ 65527) :
@@ -296,11 +328,29 @@ theorem C03_documented (d : Bytes) (n : Nat) : Documented (Tm.unpack d n) := by
             · simp only [g3, ↓reduceIte, ne_eq, g4, not_false_eq_true, throw, throwThe, MonadExceptOf.throw] at he
               cases he; rfl
 
-theorem C03_service_from_bytes (d : Bytes) : Documented (serviceFromBytes d) := by
+/-- `service_from_bytes`, completely: on every buffer of at least 8 octets it returns octet 7 (the
+    service octet of the secondary header), below 8 octets it raises `ValueError`; no other outcome -/
+theorem C03_service_from_bytes (d : Bytes) :
+    (∀ h : 8 ≤ d.length, serviceFromBytes d = .ok (d[7]'(by omega)).toNat) ∧
+    (d.length < 8 → serviceFromBytes d = .error .value) ∧ Documented (serviceFromBytes d) := by
   unfold serviceFromBytes
   by_cases h : d.length < 8
-  · simp [h, throw, throwThe, MonadExceptOf.throw, bind, Except.bind]; exact Documented.err rfl
-  · simp [h, bind, Except.bind, idx_ok (show 7 < d.length by omega)]; exact Documented.ok _
+  · refine ⟨fun h8 => absurd h (by omega), fun _ => ?_, ?_⟩
+    · simp [h, throw, throwThe, MonadExceptOf.throw, bind, Except.bind]
+    · simp [h, throw, throwThe, MonadExceptOf.throw, bind, Except.bind]; exact Documented.err rfl
+  · refine ⟨fun h8 => ?_, fun h' => absurd h' h, ?_⟩
+    · simp [h, bind, Except.bind, idx_ok (show 7 < d.length by omega)]
+    · simp [h, bind, Except.bind, idx_ok (show 7 < d.length by omega)]; exact Documented.ok _
+
+/-- on a packed telemetry packet (whatever follows it in the buffer) `service_from_bytes` returns the
+    service the packet was built with -/
+theorem C03_service_from_bytes_packed (t : Tm) (wf : WF t) (rest : Bytes) :
+    serviceFromBytes (Spec.octets t ++ rest) = .ok t.sec.service := by
+  obtain ⟨_, ⟨_, hs, _⟩, _⟩ := wf
+  have h8 : 8 ≤ (Spec.octets t ++ rest).length := by
+    simp [Spec.octets, Spec.body, Spec.sec, Spec.secFixed, C01.Spec.octets]
+  rw [(C03_service_from_bytes _).1 h8]
+  simp [Spec.octets, Spec.body, Spec.sec, Spec.secFixed, C01.Spec.octets, ar_mod _ hs]
 
 -- non-vacuity: a 3-octet timestamp, packet version 5
 example : WF ⟨⟨5, 0, 1, 0x7FF, 3, 16383, 13⟩, ⟨9, 17, 2, 0xABCD, 0xBEEF, [1, 2, 3]⟩, [7, 8]⟩ := by
